@@ -57,6 +57,8 @@ Do(R) ==
   \/ R.e = "hold"    /\ Hold(R.it, R.src, R.n, R.lo, R.hi, R.r)
   \/ R.e = "itnext"  /\ ItNext(R.it, R.cnt, R.rev, R.r)
   \/ R.e = "itdrop"  /\ ItDrop(R.it)
+  \/ R.e = "mhold"   /\ MHold(R.it, R.src, R.n, R.k, R.r)
+  \/ R.e = "mitnext" /\ MItNext(R.it, R.cnt, R.rev, R.r)
   \/ R.e = "uhold"   /\ UHold(R.it, R.src, R.n, R.kind, R.r)
   \/ R.e = "ustats"  /\ UStats(R.it, R.r, R.first)
   \/ R.e = "spe"     /\ EphSavepoint(R.s, R.r)
